@@ -170,7 +170,8 @@ Ltac numsimp :=
   change (0 >? 0) with false in *; change (1 >? 0) with true in *; change (2 >? 0) with true in *;
   change (0 >? 1) with false in *; change (1 >? 1) with false in *; change (2 >? 1) with true in *;
   change (0 =? 0) with true in *; change (1 =? 0) with false in *; change (2 =? 0) with false in *;
-  change (1 =? 1) with true in *; change (2 =? 1) with false in *; change (2 =? 2) with true in *; cbv iota in *.
+  change (1 =? 1) with true in *; change (2 =? 1) with false in *; change (2 =? 2) with true in *;
+  change (0 =? 1) with false in *; change (0 =? 2) with false in *; change (1 =? 2) with false in *; cbv iota in *.
 
 (* resolve the outermost `if` of hypothesis P by deciding one atom of its condition *)
 Ltac step P :=
@@ -180,7 +181,7 @@ Ltac step P :=
      | context [?x =? ?y] => let E := fresh "E" in destruct (x =? y) eqn:E
      | context [?x <? ?y] => let E := fresh "E" in destruct (x <? y) eqn:E
      | context [bitz ?x ?y] => let E := fresh "E" in destruct (bitz x y) eqn:E
-     end; cbn [negb andb orb] in P; cbv iota in P; try discriminate P
+     end; cbn [negb andb orb] in P; cbv beta iota in P; try discriminate P
   end.
 Ltac to_prop := repeat match goal with
   | H : (_ =? _) = true |- _ => apply Z.eqb_eq in H
@@ -201,4 +202,167 @@ Proof.
   alen_cases H; numsimp; cbn [andb] in P; repeat step P;
     injection P as <- <- <- <- <- <-; to_prop; rewrite ?cs8_spec in *;
     (split; [first [left; repeat split; fin | right; repeat split; fin] | repeat split; fin]).
+Qed.
+
+Definition bp_accepts (alen : Z) (msg : list Z) (uds udl : Z) : Prop :=
+  (rx_var_ok alen msg /\ uds = 5 + alen /\ udl = nthz msg 1 - alen - 1) \/ (rx_fixed_ok alen msg /\ uds = 0 /\ udl = 0).
+
+Theorem parse_bp_sound : forall alen msg, 0 <= alen <= 2 ->
+  match parse_bp true alen msg with
+  | BpDrop => True
+  | BpAck => nthz msg 0 = 229
+  | BpSec fc fcb fcv uds udl =>
+      bp_accepts alen msg uds udl /\ bitz (rx_ctrl msg) 64 = true /\ fc = rx_ctrl msg mod 16 /\
+      fcb = bitz (rx_ctrl msg) 32 /\ fcv = bitz (rx_ctrl msg) 16
+  | BpPri fc dir dfc acd address uds udl =>
+      bp_accepts alen msg uds udl /\ bitz (rx_ctrl msg) 64 = false /\ fc = rx_ctrl msg mod 16 /\
+      address = rx_address alen msg /\ dfc = bitz (rx_ctrl msg) 16 /\ acd = bitz (rx_ctrl msg) 32
+  end.
+Proof.
+  intros alen msg H. destruct (parse_bp true alen msg) eqn:P; [exact I | | | ];
+    unfold parse_bp in P; cbv zeta in P;
+    unfold bp_accepts, rx_var_ok, rx_fixed_ok, rx_address, rx_ctrl.
+  - alen_cases H; numsimp; cbn [andb] in P; repeat step P; to_prop; assumption.
+  - alen_cases H; numsimp; cbn [andb] in P; repeat step P;
+      injection P as <- <- <- <- <-; to_prop; rewrite ?cs8_spec in *;
+      (split; [first [left; repeat split; fin | right; repeat split; fin] | repeat split; fin]).
+  - alen_cases H; numsimp; cbn [andb] in P; repeat step P;
+      injection P as <- <- <- <- <- <- <-; to_prop; rewrite ?cs8_spec in *;
+      change (4 + 1) with 5 in *; change (4 + 2) with 6 in *; change (1 + 1) with 2 in *; change (1 + 2) with 3 in *;
+      (split; [first [left; repeat split; fin | right; repeat split; fin] | repeat split; fin]).
+Qed.
+
+(* ------------------------------------------------------------------ round trip: a well-formed frame for this station is accepted, data unchanged *)
+Lemma nthz_app2 : forall p x t, nthz (p ++ x :: t) (lenz p) = x.
+Proof.
+  intros p x t. unfold nthz, lenz. assert (E : Z.of_nat (length p) <? 0 = false) by (apply Z.ltb_ge; lia). rewrite E.
+  rewrite Nat2Z.id. rewrite app_nth2 by lia. rewrite Nat.sub_diag. reflexivity.
+Qed.
+
+Lemma slice_mid : forall p m t, slice (p ++ m ++ t) (lenz p) (lenz p + lenz m) = m.
+Proof.
+  intros p m t. unfold slice, lenz. rewrite Nat2Z.id.
+  replace (Z.to_nat (Z.of_nat (length p) + Z.of_nat (length m) - Z.of_nat (length p))) with (length m) by lia.
+  rewrite (skipn_app_exact p (m ++ t) _ eq_refl). apply firstn_app_exact. reflexivity.
+Qed.
+
+Ltac Zify.zify_post_hook ::= Z.div_mod_to_equations.
+Lemma ctrl_bits : forall fc dir fcb fcv, 0 <= fc < 16 ->
+  let c := ctrl fc true dir fcb fcv in bitz c 64 = true /\ bitz c 32 = fcb /\ bitz c 16 = fcv /\ c mod 16 = fc.
+Proof.
+  intros fc dir fcb fcv H. unfold ctrl, bitz. rewrite (Z.mod_small fc 16) by lia.
+  destruct dir, fcb, fcv; cbv zeta; repeat split; try (apply Z.eqb_eq; lia); try (apply Z.eqb_neq; lia); lia.
+Qed.
+Ltac Zify.zify_post_hook ::= idtac.
+
+(* the address octets of a frame decode to the address they were made from *)
+Definition addr_in_range (alen address : Z) : Prop := 0 <= address < (if alen =? 0 then 1 else if alen =? 1 then 256 else 65536).
+
+Ltac gstep :=
+  match goal with
+  | |- context [if ?b then _ else _] =>
+     match b with
+     | context [?x =? ?y] => let E := fresh "G" in destruct (x =? y) eqn:E
+     | context [?x <? ?y] => let E := fresh "G" in destruct (x <? y) eqn:E
+     end; cbn [negb andb orb]; cbv beta iota
+  end.
+Ltac rt_finish :=
+  repeat (rewrite ?andb_false_r;
+          repeat match goal with
+                 | H : slice _ _ _ = _ |- _ => rewrite H
+                 | H : nthz _ _ = cs8 _ |- _ => rewrite H
+                 | H : bitz _ _ = _ |- _ => rewrite H
+                 | H : _ mod 16 = _ |- _ => rewrite H
+                 end;
+          cbn [negb andb orb]; cbv beta iota;
+          try (gstep; try (exfalso; to_prop; solve [lia | congruence]))).
+
+Theorem parse_su_roundtrip : forall ff alen own fc dir fcb fcv data f, 0 <= alen <= 2 -> 0 <= fc < 16 ->
+  addr_in_range alen own -> own <> broadcast_addr alen ->
+  enc_var alen fc own true dir fcb fcv data = Some f ->
+  parse_su ff alen own f = SuOk fc false fcb fcv (5 + alen) (lenz data) /\ user_data f (5 + alen) (lenz data) = data.
+Proof.
+  intros ff alen own fc dir fcb fcv data f H Hfc Hr Hnb E.
+  unfold enc_var in E. cbv zeta in E. destruct (1 + alen + lenz data >? 255) eqn:L; [discriminate|].
+  set (c := ctrl fc true dir fcb fcv) in *. set (l := 1 + alen + lenz data) in *.
+  pose proof (lenz_nonneg data) as Hd.
+  pose proof (ctrl_bits fc dir fcb fcv Hfc) as Hc64. cbv zeta in Hc64. fold c in Hc64.
+  destruct Hc64 as (C64 & C32 & C16 & Cfc).
+  unfold addr_in_range, broadcast_addr in *.
+  alen_cases H; numsimp; unfold addr_octets in E; numsimp.
+  - (* no address field *)
+    assert (Ef : f = [104; l; l; 104] ++ (c :: data) ++ [cs8 (c :: data); 22]) by (injection E; intro X; rewrite <- X; reflexivity). clear E.
+    assert (own = 0) by lia. subst own.
+    split.
+    + unfold parse_su. cbv zeta. numsimp.
+      assert (N0 : nthz f 0 = 104) by (rewrite Ef; reflexivity).
+      assert (N1 : nthz f 1 = l) by (rewrite Ef; reflexivity).
+      assert (N2 : nthz f 2 = l) by (rewrite Ef; reflexivity).
+      assert (N4 : nthz f 4 = c) by (rewrite Ef; reflexivity).
+      assert (Lf : lenz f = l + 6) by (rewrite Ef; lz; unfold l; lia).
+      assert (SL : slice f 4 (5 + 0 + (l - 0 - 1)) = c :: data).
+      { rewrite Ef. replace (5 + 0 + (l - 0 - 1)) with (lenz [104; l; l; 104] + lenz (c :: data)) by (lz; unfold l; lia).
+        change 4 with (lenz [104; l; l; 104]). apply slice_mid. }
+      assert (NC : nthz f (5 + 0 + (l - 0 - 1)) = cs8 (c :: data)).
+      { rewrite Ef. rewrite app_assoc. replace (5 + 0 + (l - 0 - 1)) with (lenz ([104; l; l; 104] ++ c :: data)) by (lz; unfold l; lia).
+        apply nthz_app2. }
+      pose proof (eq_refl : l = 1 + 0 + lenz data) as Hl'.
+      rewrite ?N0, ?N1, ?N2, ?N4, ?N5, ?N6, ?Hdec.
+      rt_finish.
+      f_equal; lia.
+    + unfold user_data. rewrite Ef.
+      change ([104; l; l; 104] ++ (c :: data) ++ [cs8 (c :: data); 22]) with ([104; l; l; 104; c] ++ data ++ [cs8 (c :: data); 22]).
+      change (5 + 0) with (lenz [104; l; l; 104; c]). apply slice_mid.
+  - (* one address octet *)
+    rewrite (Z.mod_small own 256) in E by lia.
+    assert (Ef : f = [104; l; l; 104] ++ (c :: own :: data) ++ [cs8 (c :: own :: data); 22]) by (injection E; intro X; rewrite <- X; reflexivity). clear E.
+    split.
+    + unfold parse_su. cbv zeta. numsimp.
+      assert (N0 : nthz f 0 = 104) by (rewrite Ef; reflexivity).
+      assert (N1 : nthz f 1 = l) by (rewrite Ef; reflexivity).
+      assert (N2 : nthz f 2 = l) by (rewrite Ef; reflexivity).
+      assert (N4 : nthz f 4 = c) by (rewrite Ef; reflexivity).
+      assert (N5 : nthz f (4 + 1) = own) by (rewrite Ef; reflexivity).
+      assert (Lf : lenz f = l + 6) by (rewrite Ef; lz; unfold l; lia).
+      assert (SL : slice f 4 (5 + 1 + (l - 1 - 1)) = c :: own :: data).
+      { rewrite Ef. replace (5 + 1 + (l - 1 - 1)) with (lenz [104; l; l; 104] + lenz (c :: own :: data)) by (lz; unfold l; lia).
+        change 4 with (lenz [104; l; l; 104]). apply slice_mid. }
+      assert (NC : nthz f (5 + 1 + (l - 1 - 1)) = cs8 (c :: own :: data)).
+      { rewrite Ef. rewrite app_assoc. replace (5 + 1 + (l - 1 - 1)) with (lenz ([104; l; l; 104] ++ c :: own :: data)) by (lz; unfold l; lia).
+        apply nthz_app2. }
+      pose proof (eq_refl : l = 1 + 1 + lenz data) as Hl'.
+      rewrite ?N0, ?N1, ?N2, ?N4, ?N5, ?N6, ?Hdec.
+      rt_finish.
+      f_equal; lia.
+    + unfold user_data. rewrite Ef.
+      change ([104; l; l; 104] ++ (c :: own :: data) ++ [cs8 (c :: own :: data); 22]) with ([104; l; l; 104; c; own] ++ data ++ [cs8 (c :: own :: data); 22]).
+      change (5 + 1) with (lenz [104; l; l; 104; c; own]). apply slice_mid.
+  - (* two address octets *)
+    set (a0 := own mod 256) in *. set (a1 := (own / 256) mod 256) in *.
+    assert (Hdec : a0 + a1 * 256 = own).
+    { unfold a0, a1. rewrite (Z.mod_small (own / 256) 256) by (split; [apply Z.div_pos; lia | apply Z.div_lt_upper_bound; lia]).
+      pose proof (Z.div_mod own 256 ltac:(lia)). lia. }
+    assert (Ef : f = [104; l; l; 104] ++ (c :: a0 :: a1 :: data) ++ [cs8 (c :: a0 :: a1 :: data); 22]) by (injection E; intro X; rewrite <- X; reflexivity). clear E.
+    split.
+    + unfold parse_su. cbv zeta. numsimp.
+      assert (N0 : nthz f 0 = 104) by (rewrite Ef; reflexivity).
+      assert (N1 : nthz f 1 = l) by (rewrite Ef; reflexivity).
+      assert (N2 : nthz f 2 = l) by (rewrite Ef; reflexivity).
+      assert (N4 : nthz f 4 = c) by (rewrite Ef; reflexivity).
+      assert (N5 : nthz f (4 + 1) = a0) by (rewrite Ef; reflexivity).
+      assert (N6 : nthz f (4 + 2) = a1) by (rewrite Ef; reflexivity).
+      assert (Lf : lenz f = l + 6) by (rewrite Ef; lz; unfold l; lia).
+      assert (SL : slice f 4 (5 + 2 + (l - 2 - 1)) = c :: a0 :: a1 :: data).
+      { rewrite Ef. replace (5 + 2 + (l - 2 - 1)) with (lenz [104; l; l; 104] + lenz (c :: a0 :: a1 :: data)) by (lz; unfold l; lia).
+        change 4 with (lenz [104; l; l; 104]). apply slice_mid. }
+      assert (NC : nthz f (5 + 2 + (l - 2 - 1)) = cs8 (c :: a0 :: a1 :: data)).
+      { rewrite Ef. rewrite app_assoc. replace (5 + 2 + (l - 2 - 1)) with (lenz ([104; l; l; 104] ++ c :: a0 :: a1 :: data)) by (lz; unfold l; lia).
+        apply nthz_app2. }
+      pose proof (eq_refl : l = 1 + 2 + lenz data) as Hl'.
+      rewrite ?N0, ?N1, ?N2, ?N4, ?N5, ?N6, ?Hdec.
+      rt_finish.
+      f_equal; lia.
+    + unfold user_data. rewrite Ef.
+      change ([104; l; l; 104] ++ (c :: a0 :: a1 :: data) ++ [cs8 (c :: a0 :: a1 :: data); 22]) with ([104; l; l; 104; c; a0; a1] ++ data ++ [cs8 (c :: a0 :: a1 :: data); 22]).
+      change (5 + 2) with (lenz [104; l; l; 104; c; a0; a1]). apply slice_mid.
 Qed.
